@@ -3,6 +3,7 @@
 set -e
 cd /verif
 python3 tools/translate.py > /dev/null
+python3 tools/check_snapshot.py
 (cd lean && lake build nfdriver NetflowModel $(ls NetflowModel/Props/*.lean | sed -e 's#/#.#g' -e 's#\.lean$##') 2>&1 | tail -3)
 (cd harness && CARGO_NET_OFFLINE=true cargo build --release --offline 2>&1 | tail -2)
 echo setup-ok
